@@ -1,6 +1,7 @@
 //! C18: Jwk public projection, thumbprint and key-type coherence against spec/Jwk.tla.
 use crate::util::*;
 use futures::executor::block_on;
+use identity_core::convert::FromJson;
 use identity_did::CoreDID;
 use identity_document::document::CoreDocument;
 use identity_jose::jwk::Jwk;
@@ -227,6 +228,41 @@ fn run_row(case: &Value) -> Vec<(String, Value, Value)> {
   let same_public_part = s(&row["origin"]) != "set_kty"; // set_kty empties the parameters
   if same_public_part && carried_family(&j) != "oct" && bare.thumbprint_sha256_b64() != j.thumbprint_sha256_b64() {
     diffs.push(("thumbprint_depends_on_optional_members".into(), json!(bare.thumbprint_sha256_b64()), json!(j.thumbprint_sha256_b64())));
+  }
+  // ---- the thumbprint is a function of the CURRENT required public members: after the public part was changed through
+  // the mutable accessors (on a key whose thumbprint had been asked for, and on a clone of it) it equals the thumbprint of
+  // a key freshly built from the same members; a serde round trip does not change it
+  if same_public_part {
+    let before = j.thumbprint_sha256_b64();
+    let mut changed = j.clone();
+    let mut touched = true;
+    match changed.params_mut() {
+      JwkParams::Ec(p) => p.x = identity_jose::jwu::encode_b64([0x5au8; 32]),
+      JwkParams::Okp(p) => p.x = identity_jose::jwu::encode_b64([0x5au8; 32]),
+      JwkParams::Rsa(p) => p.n = identity_jose::jwu::encode_b64([0x5au8; 64]),
+      JwkParams::Oct(p) => p.k = identity_jose::jwu::encode_b64([0x5au8; 16]),
+      #[allow(unreachable_patterns)]
+      _ => touched = false,
+    }
+    if touched {
+      let fresh = Jwk::from_json_value(serde_json::to_value(&changed).unwrap());
+      match fresh {
+        Ok(f) => {
+          if f.thumbprint_sha256_b64() != changed.thumbprint_sha256_b64() {
+            diffs.push(("thumbprint_stale_after_change".into(), json!(f.thumbprint_sha256_b64()), json!(changed.thumbprint_sha256_b64())));
+          }
+          if carried_family(&j) != "oct" && changed.thumbprint_sha256_b64() == before {
+            diffs.push(("thumbprint_ignores_public_member".into(), json!("differs after the public member changed"), json!(before)));
+          }
+        }
+        Err(e) => diffs.push(("changed_key_not_serialisable".into(), json!("round trips"), json!(e.to_string()))),
+      }
+    }
+    if let Ok(back) = Jwk::from_json_value(serde_json::to_value(&j).unwrap()) {
+      if back.thumbprint_sha256_b64() != before {
+        diffs.push(("thumbprint_changes_over_serde".into(), json!(before), json!(back.thumbprint_sha256_b64())));
+      }
+    }
   }
   // ---- constructors of verification methods never take private members ----
   let did = CoreDID::parse("did:example:owner").unwrap();
